@@ -2,10 +2,17 @@
 
 spec/client/LogClient.tla: adversarial server answering every request with [status, body class]; the ideal RFC 6962
 client (methods of client.LogClient; submissions repeated on retryable statuses) with history variable Returned.
-TLC checks the invariants exhaustively and exports every completed call (CASE), two-call sequences (BEH) and the
-entry-decoder table (ECASE).  Binding: harness/c12 replays them into real client.LogClient instances behind a scripted
-http.RoundTripper that renders each class with real keys and certificates, re-verifies whatever is returned with std
-crypto over the independent encoding, and runs the entry decoder on the spec's classes and on seeded mutations.
+The server has a memory (variable served: the signed 200 answers given to this client) and may answer a later call
+with an earlier body byte for byte, with its signature bytes under one altered field / for another chain or method, or
+with its signature bytes in an answer of the other kind; OnlyVerifiedSTH / OnlyVerifiedSCT are stated against the
+input of the call that RETURNS the object, NoCreditForHistory says a replayed answer gets the verdict a client that
+never saw anything gives it.  TLC checks the invariants exhaustively and exports every completed call (CASE),
+two-call sequences (BEH), three-call history sequences (HBEH, MCLogClientHist) and the entry-decoder table (ECASE).
+Binding: harness/c12 replays them into real client.LogClient instances behind a scripted http.RoundTripper that renders
+each class with real keys and certificates (a replay is cut out of the very bytes served earlier), each sequence on
+ONE long-lived client and again on a fresh client per call (the two must hand back the same), re-verifies whatever is
+returned with std crypto over the independent encoding of the chain THAT call submitted, and runs the entry decoder on
+the spec's classes and on seeded mutations.
 
 spec/client/TemporalClient.tla (+ MCTemporalClient): the temporal (sharded) log client of client/multilog.go - 1..3
 contiguous shards, each with its own key, window and adversarial server.  TLC checks RoutedToOneShard, OnlyVerifiedSCT
@@ -38,6 +45,17 @@ ASSUME_TEMPORAL = [
 ]
 
 ASSUME = [
+    "client configuration: the log key is given as PublicKeyDER, as PublicKey (PEM), as both naming the same key, or as both "
+    "naming different keys (the PEM option then names the foreign key the adversarial classes use); NAMED CLAUSE DERWins: the "
+    "key the documentation of jsonclient.Options names (PublicKeyDER when both are set) is the one signatures verify under AND "
+    "the one whose hash the log ID must be; single calls are exported under all four options (unsigned endpoints: the two "
+    "single-option ones), sequences are each executed under one of the four (round-robin from the seed)",
+    "history: the server's memory is the set of 200 answers of the classes ReplaySources (quick: valid, sigCorrupt; thorough: "
+    "nine classes) given on get-sth / add-chain / add-pre-chain; a later answer is an earlier body byte for byte, or its "
+    "signature bytes under ONE altered field (tree_size+1, the other root, timestamp+1, extensions present<->absent), for "
+    "another chain / method, or under the well-formed fields of the other kind; sequences of three calls, each replayed on one "
+    "long-lived client and on a fresh client per call; NAMED CLAUSE NoCreditForHistory: a replayed answer gets the verdict it "
+    "would get from a client that never saw anything",
     "SHA-256 / ECDSA P-256 / RSA PKCS#1 v1.5 soundness (signatures are tokens in the spec; the harness uses real keys: "
     "one ECDSA P-256 and one RSA 2048 log key, a foreign key of each type)",
     "server behaviours are drawn from the body-class catalogue of LogClient.tla (single deviations from the valid answer, "
@@ -55,11 +73,27 @@ def dedup(records):
     out, seen = [], set()
     for r in records:
         steps = r if isinstance(r, list) else [r]
-        key = json.dumps([[s["method"], s["chain"], s["answers"], s["end"]] for s in steps], sort_keys=True)
+        key = json.dumps([[s.get("config"), s["method"], s["chain"], s["answers"], s["end"]] for s in steps], sort_keys=True)
         if key not in seen:
             seen.add(key)
             out.append(steps)
     return out
+
+
+KEY_OPTIONS = ["der", "pem", "bothSame", "bothDifferent"]
+
+
+def spread_key_options(ctx, seqs):
+    """Single calls are exported by TLC under every key option (LogClientCases*.cfg).  The specification's verdicts do not
+    depend on the option (VerifKey is the log's key under all four), so each SEQUENCE - exported once, under "der" - is
+    executed under one of the four, assigned round-robin from the seed: a materialization choice over a universally
+    quantified dimension, not part of the oracle."""
+    for i, beh in enumerate(seqs):
+        opt = KEY_OPTIONS[(i + ctx.seed) % len(KEY_OPTIONS)]
+        for step in beh:
+            step["config"] = opt
+            step["rotated"] = True   # keeps the fingerprints of sequences independent of the seed
+    return seqs
 
 
 def tlc_export(ctx, cfg, tag, count=False):
@@ -143,7 +177,12 @@ def run(ctx, replay=None):
         ctx.exhaustive = temporal(ctx)
         return
     # 1. exhaustive model check: methods x statuses x classes, sequences of calls, repeated submissions
-    ctx.tlc("client", "MCLogClient", ctx.pick("LogClientSmall.cfg", "LogClient.cfg"), workers=min(8, os.cpu_count() or 4))
+    #    (quick: fresh answers and replays from three classes of earlier answers, two calls; thorough: fresh answers over three
+    #    calls, then fresh and replayed answers from sixteen classes over two calls)
+    if os.environ.get("VERIF_C12_SKIP_MC") != "1":   # development aid for mutation runs: the model does not depend on /repo
+        ctx.tlc("client", "MCLogClient", ctx.pick("LogClientSmall.cfg", "LogClient.cfg"), workers=min(8, os.cpu_count() or 4))
+        if ctx.thorough():
+            ctx.tlc("client", "MCLogClient", "LogClientReplay.cfg", workers=min(8, os.cpu_count() or 4))
     # 2. every completed single call as a case, the entry-decoder table
     r = ctx.tlc("client", "MCLogClient", ctx.pick("LogClientCases.cfg", "LogClientCasesFull.cfg"), workers=1, count=False)
     cases = dedup(r.records.get("CASE", []))
@@ -166,12 +205,22 @@ def run(ctx, replay=None):
             grp = by[k]
             rnd.shuffle(grp)
             seqs += grp[:6]
-    ctx.log("cases: %d single calls, %d two-call sequences, %d entry classes" % (len(cases), len(seqs), len(ecases)))
-    ctx.exhaustive = {"single_calls": len(cases), "entry_classes": len(ecases)}
-    path = ctx.write_ndjson("behaviours.ndjson", cases + seqs)
+    # 3b. history: sequences of three calls to the signed endpoints on ONE client, the server drawing on what it answered
+    #     before (the earlier body byte for byte; its signature bytes under altered fields, for another chain, in an answer of
+    #     the other kind); the invariants and NoCreditForHistory are checked on the same state space
+    r = ctx.tlc("client", "MCLogClientHist", ctx.pick("LogClientHistSmall.cfg", "LogClientHist.cfg"), workers=1, timeout=2400)
+    hseqs = dedup(r.records.get("HBEH", []))
+    if not hseqs:
+        raise Infra("history export produced nothing")
+    nrep = sum(1 for b in hseqs if any((a.get("src") or {}).get("method") for s in b for a in s["answers"]))
+    ctx.log("cases: %d single calls, %d two-call sequences, %d history sequences (%d with a replayed answer), %d entry classes"
+            % (len(cases), len(seqs), len(hseqs), nrep, len(ecases)))
+    ctx.exhaustive = {"single_calls": len(cases), "entry_classes": len(ecases), "history_sequences": len(hseqs)}
+    path = ctx.write_ndjson("behaviours.ndjson", cases + spread_key_options(ctx, seqs) + spread_key_options(ctx, hseqs))
     ctx.go_test("c12", run="TestReplay$", env={"VERIF_BEHAVIOURS": path}, timeout=1200)
     epath = ctx.write_ndjson("ecases.ndjson", ecases)
     ctx.go_test("c12", run="TestEntryDecoder$", env={"VERIF_ECASES": epath, "VERIF_MUTATIONS": ctx.pick(20000, 400000)},
                 timeout=1200, name="c12entries")
     # 4. the temporal (sharded) log client
-    ctx.exhaustive.update(temporal(ctx))
+    if os.environ.get("VERIF_C12_ONLY") != "logclient":   # development aid for mutation runs
+        ctx.exhaustive.update(temporal(ctx))
